@@ -1,6 +1,7 @@
 package main
 
 import (
+	"go/ast"
 	"strconv"
 	"go/token"
 	"fmt"
@@ -142,7 +143,7 @@ func (x *Exec) loopInvariants(st *State, fr *frame, li *loopInfo, mode string, a
 		}
 		env.lets = con.Lets
 	}
-	x.localEnv(st, fr, env, blockPos(li.header))
+	x.localEnv(st, fr, env, loopScopePos(fr.fn, li))
 	if assert {
 		// iterator protocol invariant for iterators advanced in this loop
 		if x.loopAdvancesIter(li) {
@@ -206,6 +207,13 @@ func (x *Exec) havocLoop(st *State, fr *frame, li *loopInfo) {
 			break
 		}
 		st.regs[phi] = s.symVal(s.fresh(fr.fn.Name()+"."+phiName(phi)), phi.Type())
+		if phi.Comment == "rangeindex" {
+			// structural fact of the lowering of `for i := range slice`: the hidden index starts at -1
+			// and is only ever incremented
+			if sc, ok := st.regs[phi].(Sc); ok {
+				st.assume("(>= " + sc.T + " (- 1))")
+			}
+		}
 	}
 	if fr.con != nil {
 		if ls := fr.con.Loops[li.ord]; ls != nil {
@@ -229,6 +237,7 @@ func (x *Exec) havocLoop(st *State, fr *frame, li *loopInfo) {
 	for a := range eff.allocs {
 		if v, ok := st.regs[a]; ok {
 			if p, ok := v.(Ptr); ok && p.Loc != nil {
+				s.noteLocWrite(st, p.Loc)
 				st.mem[p.Loc] = s.symVal(s.fresh("havoc:"+p.Loc.Name), p.Loc.Typ)
 			}
 		}
@@ -236,6 +245,7 @@ func (x *Exec) havocLoop(st *State, fr *frame, li *loopInfo) {
 	if len(eff.types) > 0 {
 		for l := range st.mem {
 			if eff.types[typeKey(l.Typ)] || eff.anyFieldType(l.Typ) {
+				s.noteLocWrite(st, l)
 				st.mem[l] = s.symVal(s.fresh("havoc:"+l.Name), l.Typ)
 			}
 		}
@@ -257,6 +267,7 @@ func (x *Exec) havocLoop(st *State, fr *frame, li *loopInfo) {
 					nc.Sym = true
 					a.Name = s.fresh(a.Name)
 				}
+				s.noteArrWrite(st, a)
 				st.arrs[a] = nc
 			}
 		}
@@ -454,6 +465,80 @@ func (x *Exec) rangeNext(st *State, fr *frame, in *ssa.Next) {
 		ok, b, rn, b, w, b, rn, w, w, pos, w, str))
 	st.mem[p.Loc] = Rec{F: []Val{r.F[0], scInt(ite(ok, "(+ "+pos+" "+w+")", pos))}}
 	st.regs[in] = Rec{F: []Val{scBool(ok), scInt(pos), scInt(rn)}}
+}
+
+// loopScopePos: the source position at which the names of a loop clause are resolved: the opening
+// brace of the body of the loop statement. There the variables of the enclosing scopes and of the
+// loop statement itself (init / range variables) are visible, the variables declared inside the body
+// are not (a clause talks about the loop head: a body-local that shadows an outer variable must never
+// be what the clause means at the back edge). The loop statement is found in the syntax of fn as the
+// For/Range statement containing every positioned instruction of the loop, with the same nesting
+// depth as the SSA loop (innermost such when depths cannot be matched). Fallback: blockPos.
+func loopScopePos(fn *ssa.Function, li *loopInfo) token.Pos {
+	syn := fn.Syntax()
+	if syn == nil {
+		return blockPos(li.header)
+	}
+	var ps []token.Pos
+	for b := range li.body {
+		for _, ins := range b.Instrs {
+			if p := ins.Pos(); p != token.NoPos {
+				ps = append(ps, p)
+			}
+		}
+	}
+	for _, ins := range li.header.Instrs {
+		if p := ins.Pos(); p != token.NoPos {
+			ps = append(ps, p)
+		}
+	}
+	if len(ps) == 0 {
+		return blockPos(li.header)
+	}
+	type cand struct {
+		lbrace token.Pos
+		size   token.Pos
+	}
+	var best *cand
+	var stack []ast.Node
+	ast.Inspect(syn, func(n ast.Node) bool {
+		if n == nil {
+			stack = stack[:len(stack)-1]
+			return true
+		}
+		stack = append(stack, n)
+		if _, isLit := n.(*ast.FuncLit); isLit && n != syn {
+			stack = stack[:len(stack)-1]
+			return false // closures are functions of their own
+		}
+		var body *ast.BlockStmt
+		switch s := n.(type) {
+		case *ast.ForStmt:
+			body = s.Body
+		case *ast.RangeStmt:
+			body = s.Body
+		}
+		if body == nil {
+			return true
+		}
+		for _, p := range ps {
+			if p < n.Pos() || p >= n.End() {
+				return true
+			}
+		}
+		// contains every instruction of the loop: the smallest such statement that is not smaller
+		// than the loop (an inner loop statement holding all positioned instructions of an outer
+		// SSA loop is possible only when the outer body declares nothing before it)
+		c := &cand{lbrace: body.Lbrace, size: n.End() - n.Pos()}
+		if best == nil || c.size < best.size {
+			best = c
+		}
+		return true
+	})
+	if best == nil {
+		return blockPos(li.header)
+	}
+	return best.lbrace
 }
 
 // blockPos: a source position inside the loop statement whose header block is b
